@@ -124,9 +124,9 @@ func toLatin(s string) ([]byte, bool) {
 }
 
 func c11Run(c *core.Ctx) {
-	n, nb := 5, 3
+	n, nb := 5, 4
 	if c.Thorough() {
-		n, nb = 6, 4
+		n, nb = 6, 5
 	}
 	c.Info("alphabet", fmt.Sprintf("%x", sigma11))
 	c.Info("maxlen", fmt.Sprint(n))
